@@ -20,9 +20,9 @@ def run(ctx, R):
     R.not_decided = ['the numeric equality "count = number of live holders" at run time']
     declare(R, {**holds.RULES, **delivery.RULES}, RULES, FLOORS)
     for c in hold_classes(ctx):
-        holds.check_class(ctx, R, c, rules=set(RULES))
-        holds.check_in_flight(ctx, R, c)
-    holds.check_emit(ctx, R)
-    delivery.check_swap_atomic(ctx, R, [c for c in hold_classes(ctx) if c.module.name == 'streamz.core'])
+        R.run(holds.check_class, ctx, R, c, rules=set(RULES))
+        R.run(holds.check_in_flight, ctx, R, c)
+    R.run(holds.check_emit, ctx, R)
+    R.run(delivery.check_swap_atomic, ctx, R, [c for c in hold_classes(ctx) if c.module.name == 'streamz.core'])
     for k in [k for k in R.obs if k[0] not in RULES]:
         del R.obs[k]
